@@ -14,6 +14,7 @@ import json
 import types
 
 PROPERTY = "C05"
+CASE_TIMEOUT = 300  # s of wall clock per case in pool workers (runner watchdog): a case that spins forever is a verdict, not exit 2
 THEOREM_MODULE = "NemoVerif.Theorems.C05"
 RULE = ("prog: 2..6 flows, each waits for `match E(<subset of the payload, occasionally not fitting>)` directly, through an awaited helper "
         "flow (vector [s, priority]), through a started helper flow (vector [s, 1.0]) or inside `when` (catch label), then starts an action / sends "
